@@ -230,6 +230,54 @@ def user_data(ctx):
             ctx.hit('user-array-modified', {"arrays": changed}, case)
         else:
             ctx.count('user-data:untouched')
+    # "any dtype numpy accepts": the standard form depends on the VALUES of the user's arrays, not on their dtype; kldiv / perspective
+    # atoms read the array they were given when the constraint was declared, not what it holds later
+    for k in range(ctx.n(30, 400)):
+        ctx.search_cases += 1; ctx.evaluations += 1
+        dt = str(r.choice(['uint8', 'uint16', 'uint32', 'int8', 'int16', 'int64', 'float32', 'bool'][:7]))
+        n = 3
+        A = r.integers(0, 4, (2, n)); b = r.integers(1, 6, 2); lo = r.integers(0, 3, n); c = r.integers(0, 4, n)
+        case = {"dtype_semantics": dt, "A": A.tolist(), "b": b.tolist(), "lo": lo.tolist(), "c": c.tolist()}
+
+        def form(cast):
+            A_, b_, lo_, c_ = (cast(v) for v in (A, b, lo, c))
+            m = ro.Model(); x = m.dvar(n); z = m.rvar(n)
+            m.minmax((c_ * x).sum() - c_ @ x + c_ @ x + (x - lo_) @ z, abs(z) <= 1)
+            m.st(A_ @ x <= b_, 2 * x - lo_ >= 0, x - lo_ <= b_[0], (x * z).sum() - c_ @ x <= b_[1], x <= 9)
+            with C.quiet():
+                return C.prog_json(m.do_math())
+        try:
+            fa = form(lambda v: v.astype(dt)); fb = form(lambda v: v.astype(float))
+        except Exception as ex:
+            ctx.count('dtype-semantics:raises:' + type(ex).__name__); continue
+        keys = [k_ for k_ in fa if fa[k_] != fb[k_]]
+        if keys:
+            ctx.hit('standard-form-depends-on-dtype', {"dtype": dt, "fields": keys}, case)
+        else:
+            ctx.count('dtype-semantics:same:' + dt)
+    for k in range(ctx.n(6, 40)):
+        ctx.search_cases += 1; ctx.evaluations += 1
+        kind = str(r.choice(['kldiv', 'pexp']))
+        case = {"late_overwrite": kind}
+
+        def form(overwrite):
+            m = ro.Model(); p_ = m.dvar(3); t = m.dvar()
+            q = np.array([0.2, 0.3, 0.5]); sc = np.array([1.0, 2.0, 4.0])
+            m.min(t)
+            m.st(rso.kldiv(p_, q, 0.1) if kind == 'kldiv' else (rso.pexp(p_, sc) <= t), p_ >= 0.05, p_.sum() == 1, t >= p_[0])
+            if overwrite:
+                q[:] = [0.5, 0.3, 0.2]; sc[:] = [4.0, 2.0, 1.0]        # the user's arrays change AFTER the declaration
+            with C.quiet():
+                return C.prog_json(m.do_math())
+        try:
+            fa, fb = form(False), form(True)
+        except Exception as ex:
+            ctx.count('late-overwrite:raises:' + type(ex).__name__); continue
+        keys = [k_ for k_ in fa if fa[k_] != fb[k_]]
+        if keys:
+            ctx.hit('standard-form-follows-later-changes-of-user-array', {"atom": kind, "fields": keys}, case)
+        else:
+            ctx.count('late-overwrite:same:' + kind)
     ctx.sample({"user_data_cases": ctx.counts.get('user-data:untouched', 0)}, limit=1)
 
 
